@@ -273,7 +273,13 @@ def run(eng, ctx):
                     if not okb and v[0] == "loop":
                         li = sh.loop_info.get(v[1], {})
                         ends = [st.env.get(v[2]) for k, st in li.get("ends", []) if k == "continue"] + ([li.get("body_end", {}).get(v[2])] if not li.get("body_dead") else [])
-                        okb = (li.get("pre") or {}).get(v[2]) == ("const", 1) and ends and all(x == ("bin", "+", v, ("const", 1)) for x in ends)
+                        inc = ("bin", "+", v, ("const", 1))
+
+                        def adv(x):
+                            # advanced by one on the normal path; unchanged only on the exception path of the probe (where the loop is left)
+                            return x == inc or (x is not None and x[0] == "ite" and x[1][0] == "exc-path" and x[2] == v and x[3] == inc)
+
+                        okb = (li.get("pre") or {}).get(v[2]) == ("const", 1) and ends and all(adv(x) for x in ends)
                     ctx.check(okb, "C18.D5", ph.qualname, f"index base in {norm(e.node)[:50]}", expected="zero-based counter + 1", found=show(v)[:60], **eng.loc(ph, e.node))
     # probing loop ends on AttributeError only
     hs = [n for n in walk_no_nested(ph.node) if isinstance(n, ast.ExceptHandler)]
@@ -373,6 +379,9 @@ def _structure_msm(eng, ctx, pm, se, msgp, probes, nsat, ncell, gnssmap):
     meta, S, C = rets[0].term[1]
     items = _upd_items(meta)
     ep = items.get(("const", "epoch")) if items is not None else None
+    if ep is not None and ep[0] == "call" and len(ep[3]) == 2 and ep[3][1][0] == "proj" and isinstance(ep[3][1][2], int):
+        # `gnss, epoch = GNSSMAP[...]` (tuple unpacking) names the same component as GNSSMAP[...][1]
+        ep = ep[:3] + ((ep[3][0], ("idx", ep[3][1][1], ("const", ep[3][1][2]))),) + ep[4:]
     okep = (ep is not None and ep[0] == "call" and ep[2] == ("builtin", "getattr") and len(ep[3]) == 2 and ep[3][0] == msgp and ep[3][1][0] == "idx" and ep[3][1][2] == ("const", 1)
             and ep[3][1][1][0] == "idx" and ep[3][1][1][1][0] == "gval" and ep[3][1][1][1][1].v is gnssmap
             and ep[3][1][1][2][0] == "slice" and ep[3][1][1][2][1] == ("attr", msgp, "identity") and ep[3][1][1][2][2] in (("const", 0), ("const", None)) and ep[3][1][1][2][3] == ("const", 3))
